@@ -1976,6 +1976,30 @@ def c19_cases(tier, seed):
         c.meta["printers"] = nthreads
         c.meta["prints"] = prints
         cases.append(c)
+    # printer lifetimes: a printer is created and dropped before the first read, which runs with no printer alive; the
+    # session's printers are created only after it and print during the second read
+    for _ in range(n // 5):
+        mode = rng.choice(["emacs", "emacs", "vi"])
+        nthreads = rng.choice([1, 2])
+        cmds1 = gen_c19(rng, mode)[:rng.randint(1, 4)] + [Cmd(["F12"], "noop"), Cmd(["Enter"], "enter")]
+        cmds = cmds1 + gen_c19(rng, "emacs" if mode == "emacs" else "vi") + [Cmd(["F12"], "noop"), Cmd(["Enter"], "enter")]
+        chunks = [b"".join(p_tty.key_bytes(k) for k in cmd.keys) for cmd in cmds]
+        prints, serial = {}, 0
+        for k, cmd in enumerate(cmds):
+            if k < len(cmds1) or cmd.tag == "enter":
+                continue
+            if rng.random() < 0.4:
+                t = rng.randrange(nthreads)
+                prints[k] = [(t, "<%d:%d:%s>" % (t, serial, rng.choice(["late", "日本", "two\nlines"])) + ("\n" if rng.random() < 0.3 else ""))]
+                serial += 1
+        if not prints:
+            prints[len(cmds) - 2] = [(0, "<0:0:late>")]
+        c = script_case(cmds, mode=mode, chunks=chunks, cols=rng.choice([80, 40]), prompt="> ",
+                        timeout=0 if mode == "vi" else rng.choice(["none", 0]), reads=2)
+        c.meta["printers"] = nthreads
+        c.meta["printers_late"] = 1
+        c.meta["prints"] = prints
+        cases.append(c)
     # bursts: several threads are told to print at once, without waiting for one another (the editor may find
     # more than one wake-up pending); which message comes first is not determined, the oracle does not care
     for _ in range(n // 3):
